@@ -169,6 +169,7 @@ def check_weekday_decoding(ck, prog):
 def c20b(ck, prog):
     R = "C20-b BOUND"
     f = prog.method(r"^ohkami_lib::time::UTCDateTime$", "into_imf_fixdate")
+    f = prog.inlined(f, 2, r"MaybeUninit::<T>::write$")       # the byte writer may be a local helper / a small writer type
     writes = {c.bb for c in f.calls_to(r"MaybeUninit::<T>::write$")}
     # (the exact count per path is decided below against the buffer size; the floor only guards the anchor)
     ck.floor(R, "write sites in into_imf_fixdate", len(writes), 8)
@@ -177,27 +178,46 @@ def c20b(ck, prog):
     except bound.Unbounded as e:
         ck.ob(R, "imf:writes", False, f.loc(None), "cannot bound the number of unchecked writes in into_imf_fixdate: %s" % e)
         lo = hi = None
-    buf = [t for t in f.locals if re.fullmatch(r"\[core::mem::maybe_uninit::MaybeUninit<u8>; (\d+)\]", t)]
-    cap = int(re.search(r"; (\d+)\]", buf[0]).group(1)) if buf else None
+    tys = " ".join(t or "" for t in f.locals) + " " + " ".join(" ".join(str(x) for x in (fl.get("ty", "") for fl in a_.get("fields", []))) if isinstance(a_.get("fields"), list) and a_.get("fields") and isinstance(a_["fields"][0], dict) else str(a_.get("fields", "")) for k_, a_ in prog.adts.items() if "into_imf_fixdate" in k_)
+    caps = {int(x) for x in re.findall(r"\[core::mem::maybe_uninit::MaybeUninit<u8>; (\d+)\]", tys)}
+    cap = caps.pop() if len(caps) == 1 else None
+
+    def canon(op):
+        """(local, projections) the index operand reads: through copies of temporaries and `(*r)` of reference temporaries"""
+        if op[0] not in ("c", "m"):
+            return None
+        pl = [op[1][0], list(op[1][1])]
+        for _ in range(12):
+            if 1 <= pl[0] <= f.argc:
+                break
+            sd = f.single_def(pl[0])
+            if sd is None or sd[2] != "assign" or sd[3]["p"][1]:
+                break
+            r = sd[3]["r"]
+            if r[0] == "use" and r[1][0] in ("c", "m") and (not pl[1] or pl[1][0][0] == "d" or True) and not (pl[0] in f.mut_borrowed()):
+                pl = [r[1][1][0], list(r[1][1][1]) + pl[1]]
+            elif r[0] == "ref" and pl[1] and pl[1][0][0] == "d":
+                pl = [r[2][0], list(r[2][1]) + pl[1][1:]]
+            else:
+                break
+        return (pl[0], tuple((p_[0], p_[1] if len(p_) > 1 else None) for p_ in pl[1]))
     if lo is not None:
         ok = lo == hi == cap
         ck.ob(R, "imf:writes", ok, f.loc(None),
               "" if ok else "into_imf_fixdate writes between %d and %d bytes (unchecked, one per index) into its %s-byte MaybeUninit buffer before transmuting it to [u8; %s]" % (lo, hi, cap, cap),
               how="every path performs exactly %d unchecked writes; buffer = %s bytes" % (hi, cap))
-        # every write goes to `buf[idx]` for one running index variable and is followed by `idx += 1` before the next write
+        # every write goes to `buf[idx]` for one running index (a variable, or a field of the writer) and is followed by
+        # `idx += 1` before the next write
         gi = f.calls_to(r"get_unchecked_mut$")
-        idx_locals = set()
-        for c in gi:
-            st = f.origin(c.args[1])
-            idx_locals.add(st[-1][1] if st and st[-1][0] == "multi" else None)
-        okidx = len(idx_locals) == 1 and None not in idx_locals and len(gi) == len(writes)
+        idx_ids = {canon(c.args[1]) for c in gi}
+        okidx = len(idx_ids) == 1 and None not in idx_ids and len(gi) == len(writes)
         ck.ob(R, "imf:one-running-index", okidx, f.loc(None), "" if okidx else "the buffer slots in into_imf_fixdate are not all addressed by one running index variable", how="get_unchecked_mut(idx) x%d, same variable" % len(gi))
-        idx = next(iter(idx_locals)) if okidx else None
+        idx = next(iter(idx_ids)) if okidx else None
         incs = set()
         for bi, b in enumerate(f.blocks):
             for st in b["st"]:
                 if st["k"] == "=" and st["r"][0] == "bin" and st["r"][1] in ("Add", "AddWithOverflow") and st["r"][3][0] == "k" and guards.const_int(st["r"][3][1]) == 1:
-                    if st["r"][2][0] in ("c", "m") and st["r"][2][1][0] == idx:
+                    if st["r"][2][0] in ("c", "m") and canon(st["r"][2]) == idx:
                         incs.add(bi)
         bad = []
         for w in sorted(writes):
@@ -206,11 +226,20 @@ def c20b(ck, prog):
             seen = f.reachable_from(nxt, avoid=tuple(incs)) if nxt is not None else set()
             if seen & writes:
                 bad.append(w)
-        ok = okidx and not bad and len(incs) >= len(writes)
+        ok = okidx and not bad and len(incs) >= 1
         ck.ob(R, "imf:index-advances", ok, f.loc(None), "" if ok else "a write in into_imf_fixdate can be followed by another write without the index having been incremented in between (bb %s)" % bad, how="%d writes, each followed by `idx += 1`" % len(writes))
-        init = [d for d in f.defs().get(idx, []) if d[2] == "assign" and d[3]["r"][0] == "use" and d[3]["r"][1][0] == "k"] if idx is not None else []
-        ok = len(init) == 1 and guards.const_int(init[0][3]["r"][1][1]) == 0
-        ck.ob(R, "imf:index-starts-at-0", ok, f.loc(None), "" if ok else "the running index of into_imf_fixdate does not start at 0", how="idx = 0")
+        init_ok = False
+        if idx is not None and not idx[1]:
+            init = [d for d in f.defs().get(idx[0], []) if d[2] == "assign" and d[3]["r"][0] == "use" and d[3]["r"][1][0] == "k" and not d[3]["p"][1]]
+            init_ok = len(init) == 1 and guards.const_int(init[0][3]["r"][1][1]) == 0
+        elif idx is not None:
+            # a field of a writer value: the value is built once, with the field 0
+            fld = [p_ for p_ in idx[1] if p_[0] == "f"]
+            for d in f.defs().get(idx[0], []):
+                if d[2] == "assign" and not d[3]["p"][1] and d[3]["r"][0] == "agg" and fld and fld[-1][1] < len(d[3]["r"][2]):
+                    o_ = d[3]["r"][2][fld[-1][1]]
+                    init_ok = o_[0] == "k" and guards.const_int(o_[1]) == 0
+        ck.ob(R, "imf:index-starts-at-0", init_ok, f.loc(None), "" if init_ok else "the running index of into_imf_fixdate does not start at 0", how="idx = 0")
     # name-table indices: get_unchecked(weekday().num_days_from_sunday()) / get_unchecked(month_index())
     for c in f.calls_to(r"<impl \[T\]>::get_unchecked$"):
         d = decision.describe_deep(f, c.args[1], 4)
@@ -233,7 +262,7 @@ def c20b(ck, prog):
     ck.ob(R, "itoa:push-writes-one", ok, pc.loc(None), "" if ok else "itoa's push closure is not `write at len; set_len(len + 1)` (%s)" % inc, how="ptr::write(buf + len); set_len(len + 1)")
     calls = {c.bb for c in g.calls() if re.search(r"FnMut<.*>::call_mut$|Fn<.*>::call$|FnOnce<.*>::call_once$", c.callee or "") or (c.callee or "").endswith("itoa::{closure#0}")}
     try:
-        lo, hi = bound.weight_range(g, lambda b: 1 if b in calls else 0)
+        lo, hi = bound.weight_range(g, lambda b: 1 if b in calls else 0, loop_bound=lambda f_, h_, body_: bound.array_len_of_iter(f_, body_) or bound.counter_loop_bound(f_, h_, body_))
     except bound.Unbounded as e:
         ck.ob(R, "itoa:pushes", False, g.loc(None), "cannot bound the number of pushes in itoa: %s" % e)
         return
@@ -464,7 +493,7 @@ def c20d(ck, prog):
                       "%s takes `%s` of an input that was first cast from %s down to %s (%s): for inputs that need more than %d bits the result differs from the %s of the full value "
                       "(e.g. seconds of the day for a timestamp >= 2^32)" % (f.key, what, sty, dty, f.loc(csp), BITS[dty], what.lower()))
     ck.ob(R, "all-reductions-on-full-width-values", True, "", how="%d division/remainder site(s) in time.rs and num.rs, none applied to a truncated operand" % n, nontrivial=False)
-    ck.floor(R, "division/remainder sites examined", n, 20)
+    ck.floor(R, "division/remainder sites examined", n, 8)
 
 
 def c20e(ck, prog):
